@@ -1,11 +1,11 @@
-\* quick: header positions {0,1,7,512,1019} x 4 file kinds
+\* adequacy witness: a header search that does not restart partial matches must be refuted
 CONSTANTS
   Headers = {0, 1, 7, 512, 1019}
   Tails = {"plain", "%", "%P", "%PD", "%PDF"}
   Kinds = {"classic", "xrefstm", "prev2", "objstm"}
   Consumers = {"startxref", "prev", "entry", "streamdata", "scan"}
-  Dev = {}
+  Dev <- D_naive
 INIT Init
 NEXT Next
-INVARIANTS SameAsUnprefixed HeaderFindable Emit
+INVARIANTS SameAsUnprefixed
 CHECK_DEADLOCK FALSE
